@@ -38,7 +38,7 @@ pub static DEF: PropDef = PropDef {
 fn runs(t: Tier) -> u64 {
 	match t {
 		Tier::Quick => 3_000,
-		Tier::Thorough => 150_000,
+		Tier::Thorough => 60_000,
 	}
 }
 
